@@ -154,7 +154,11 @@ func newExecEnvWith(native bool, store *fakeCAS, upload blobstore.BlobAccess, fo
 		builder.NewRootBuildDirectoryCreator(buildDirectory),
 		x.runner,
 		clock.SystemClock,
-		/* maximumWritableFileUploadDelay = */ time.Minute,
+		// Real-time limits inside the real executor (this one and the
+		// action timeout of one hour below) are far beyond what any run
+		// needs: no outcome depends on how fast the machine is.
+		/* maximumWritableFileUploadDelay = */
+		time.Hour,
 		/* inputRootCharacterDevices = */ nil,
 		/* maximumMessageSizeBytes = */ 1<<20,
 		/* environmentVariables = */ map[string]string{},
